@@ -38,6 +38,7 @@ KNOWN_KEY = "C10:svd-shift-absolute-threshold"
 SHIFT_THR = 1e-12
 SPEC = {"qr_n": 0, "qr_bad": 0, "qr_worst": 0.0, "svd_n": 0, "svd_bad": 0, "svd_worst": 0.0, "detail": ""}
 COUNTS = ib.Hist()
+WORST = {"vec": 0.0, "iso": 0.0, "scalar": 0.0}
 
 # ----------------------------------------------------------------------------------------------- formatting
 
@@ -65,23 +66,37 @@ def req_tensors(ts) -> str:
     return f"{len(ts)} " + " ".join(req_tensor(t) for t in ts)
 
 
-def fnum(z) -> str:
-    z = complex(z)
+def fnum(z, k=0) -> str:
+    z = complex(z) * 2.0 ** (-k)
     return f"{float(z.real)!r} {float(z.imag)!r}"
 
 
-def impl_tensor(t) -> str:
+def impl_tensor(t, k=0) -> str:
     t = np.asarray(t)
-    return f"{t.shape[0]} {t.shape[1]} {t.shape[2]} " + " ".join(fnum(z) for z in t.reshape(-1))
+    return f"{t.shape[0]} {t.shape[1]} {t.shape[2]} " + " ".join(fnum(z, k) for z in t.reshape(-1))
 
 
-def impl_mat(m) -> str:
+def impl_mat(m, k=0) -> str:
     m = np.asarray(m)
-    return f"{m.shape[0]} {m.shape[1]} " + " ".join(fnum(z) for z in m.reshape(-1))
+    return f"{m.shape[0]} {m.shape[1]} " + " ".join(fnum(z, k) for z in m.reshape(-1))
 
 
-def impl_tensors(ts) -> str:
-    return " ; ".join(impl_tensor(t) for t in ts)
+def impl_tensors(ts, k=0) -> str:
+    return " ; ".join(impl_tensor(t, k) for t in ts)
+
+
+def pow2(*arrays) -> int:
+    """k such that the largest entry of the implementation's answer, divided by 2^k, is at most 1 (0 for small answers).
+    Scaling by a power of two is exact in binary64; the driver scales the model's exact answer by the same factor, so the
+    absolute tolerance of the comparison is not eaten by the rounding noise of large entries."""
+    m = max((float(np.max(np.abs(a))) for a in arrays if a is not None and np.size(a)), default=0.0)
+    if not np.isfinite(m) or m <= 4.0:
+        return 0
+    return int(np.ceil(np.log2(m)))
+
+
+def scaled(req: str, k: int) -> str:
+    return req if k == 0 else f"@{k} " + req
 
 
 # ----------------------------------------------------------------------------------------------- spec ties
@@ -277,8 +292,10 @@ def ev_token(e) -> str:
     if e["ev"] == "qr":
         contracted = e.get("changed") is not None and len(e["changed"]) == 2
         return ("Q" if contracted else "D") + str(e["site"])
-    if e["ev"] == "svd":
-        return "S" + str(e["site"])
+    if e["ev"] == "svd":  # the centre shift must call two_site_svd(threshold=1e-12, max_bond_dim=None)
+        if e["thr"] == SHIFT_THR and e["cap"] is None:
+            return "S" + str(e["site"])
+        return f"S{e['site']}[threshold={e['thr']!r},max_bond_dim={e['cap']}]"
     if e["ev"] == "svdT":
         return "T" + str(e["site"])
     return "?"
@@ -314,6 +331,8 @@ def random_mps(rng, nprng, lmax=7, chimax=4):
             t[:, :, -1] = 0.0
         elif mode < 0.32:
             t = t.real.astype(complex)
+        elif mode < 0.42 and bonds[i + 1] >= 2:  # a small but relevant Schmidt direction (weight >> 1e-12: must survive an SVD shift)
+            t[:, :, -1] *= 10.0 ** (-rng.uniform(3.0, 5.0))
         ts.append(t)
     gauges = 0
     for i in range(L - 1):  # random gauge on bond i
@@ -352,17 +371,17 @@ def gen_ops(rng, L, n):
 
 
 def gen(rng, tier):
-    nseq = {"quick": 34, "thorough": 400, "search": 120}.get(tier, 34)
+    nseq = {"quick": 160, "thorough": 1500, "search": 400}.get(tier, 160)
     # exhaustive truth tables first (cheap), then op sequences, then the small-scale SVD family
     for L in (1, 2, 3, 4):
         yield {"kind": "canon-tables", "L": L}
     for _ in range(nseq):
         yield {"kind": "sequence", "sub": rng.randrange(1 << 30)}
-    for _ in range({"quick": 4, "thorough": 40, "search": 10}.get(tier, 4)):
+    for _ in range({"quick": 8, "thorough": 60, "search": 20}.get(tier, 8)):
         yield {"kind": "svd-smallscale", "sub": rng.randrange(1 << 30), "variant": rng.choice(["gauge", "scale"]),
-               "g": 10.0 ** rng.uniform(-6.5, -5.0), "scale": 10.0 ** rng.uniform(-3.0, -2.5),
+               "g": 10.0 ** rng.uniform(-6.5, -5.0), "scale": 10.0 ** rng.uniform(-2.05, -1.7),
                "op": rng.choice([["shiftR", 1, "SVD"], ["setcanon", 2, "SVD"], ["normalize", "B", "SVD"]])}
-    for _ in range({"quick": 6, "thorough": 60, "search": 20}.get(tier, 6)):
+    for _ in range({"quick": 12, "thorough": 100, "search": 30}.get(tier, 12)):
         yield {"kind": "pad-error", "sub": rng.randrange(1 << 30)}
 
 
@@ -429,16 +448,20 @@ def trace_request(L, op, canon_first):
 
 
 def significant_truncation(events):
-    """(worst relative size of a discarded singular value, smallest |theta|_F^2) over the SVD events of an op"""
-    worst, small = 0.0, np.inf
+    """over the SVD calls of one operation: (largest discarded singular value relative to the largest one,
+    largest |theta|_F^2 among the calls that discarded a singular value above 1e-12 — inf when there is none,
+    square root of the total discarded weight)"""
+    worst, block, weight = 0.0, 0.0, 0.0
     for e in events:
         if e["ev"] in ("svd", "svdT") and "S" in e:
             keep = e["ret"][0].shape[2]
             s = e["S"]
-            small = min(small, float(np.sum(s**2)))
             if keep < len(s) and s[0] > 0:
                 worst = max(worst, float(s[keep] / s[0]))
-    return worst, small
+                weight += float(np.sum(s[keep:] ** 2))
+                if s[keep] > 1e-12:
+                    block = max(block, float(np.sum(s**2)))
+    return worst, (block if block > 0 else np.inf), float(np.sqrt(weight))
 
 
 def primitive_cases(events, seq_id, budget):
@@ -450,12 +473,14 @@ def primitive_cases(events, seq_id, budget):
             break
         if e["ev"] == "qr" and "M" in e and e.get("changed") is not None:
             contracted = len(e["changed"]) == 2
-            out.append({"kind": "qrmat", "req": "qrmat " + req_tensor(e["A"]), "impl": impl_mat(e["M"]), "oracle": None,
+            k = pow2(e["M"])
+            out.append({"kind": "qrmat", "req": scaled("qrmat " + req_tensor(e["A"]), k), "impl": impl_mat(e["M"], k), "oracle": None,
                         "sig": f"qrmat:{e['A'].shape}", "nontrivial": e["A"].shape[1] > 1})
             if contracted:
+                k = pow2(e["Anew"], e["Bnew"])
                 req = "qr " + " ".join([req_tensor(e["A"]), req_tensor(e["B"]), req_mat(e["Q"]), req_mat(e["R"])])
-                impl = impl_tensor(e["Anew"]) + " ; " + impl_tensor(e["Bnew"])
-                out.append({"kind": "qr-shift", "req": req, "impl": impl, "oracle": None,
+                impl = impl_tensor(e["Anew"], k) + " ; " + impl_tensor(e["Bnew"], k)
+                out.append({"kind": "qr-shift", "req": scaled(req, k), "impl": impl, "oracle": None,
                             "sig": f"qr:{e['A'].shape}:{e['B'].shape}:{e['Q'].shape}",
                             "nontrivial": e["R"].shape[0] > 1 or e["R"].shape[1] > 1})
             else:
@@ -463,8 +488,9 @@ def primitive_cases(events, seq_id, budget):
                 out.append({"kind": "qr-last", "req": req, "impl": impl_tensor(e["Anew"]), "oracle": None,
                             "sig": f"qrlast:{e['A'].shape}", "nontrivial": True})
         elif e["ev"] in ("svd", "svdT") and "theta" in e:
-            out.append({"kind": "theta", "req": "theta " + req_tensor(e["A"]) + " " + req_tensor(e["B"]),
-                        "impl": impl_mat(e["theta"]), "oracle": None, "sig": f"theta:{e['A'].shape}:{e['B'].shape}",
+            k = pow2(e["theta"])
+            out.append({"kind": "theta", "req": scaled("theta " + req_tensor(e["A"]) + " " + req_tensor(e["B"]), k),
+                        "impl": impl_mat(e["theta"], k), "oracle": None, "sig": f"theta:{e['A'].shape}:{e['B'].shape}",
                         "nontrivial": e["A"].shape[2] > 1})
             s, thr = e["S"], e["thr"]
             acc, edge = 0.0, False
@@ -473,9 +499,10 @@ def primitive_cases(events, seq_id, budget):
                 if abs(acc - thr) <= 1e-9 * thr:
                     edge = True
             anew, bnew = (e["Anew"], e["Bnew"]) if e["ev"] == "svd" else e["ret"]
+            k = pow2(anew, bnew)
             req = "svd " + " ".join([ib.frac(thr), req_tensor(e["A"]), req_tensor(e["B"]), req_mat(e["U"]), req_reals(s), req_mat(e["V"])])
-            impl = f"keep {anew.shape[2]} " + impl_tensor(anew) + " ; " + impl_tensor(bnew)
-            out.append({"kind": "svd-shift" if e["ev"] == "svd" else "svd-truncate", "req": req, "impl": impl, "oracle": None, "edge": edge,
+            impl = f"keep {anew.shape[2]} " + impl_tensor(anew, k) + " ; " + impl_tensor(bnew, k)
+            out.append({"kind": "svd-shift" if e["ev"] == "svd" else "svd-truncate", "req": scaled(req, k), "impl": impl, "oracle": None, "edge": edge,
                         "sig": f"svd:{e['A'].shape}:{e['B'].shape}:{anew.shape[2]}:{len(s)}", "nontrivial": anew.shape[2] < len(s)})
     for c in out:
         c["id"] = f"{seq_id}.{c['kind']}.{len(c['req'])}"
@@ -512,9 +539,10 @@ def canon_cases(mps, tag):
     j = (len(tag) * 7 + L) % L
     t = mps.tensors[j]
     if t.size <= 48:
-        out.append({"kind": "gramL", "req": "gram L " + req_tensor(t), "impl": impl_mat(left[j]), "oracle": None,
+        kl, kr = pow2(left[j]), pow2(right[j])
+        out.append({"kind": "gramL", "req": scaled("gram L " + req_tensor(t), kl), "impl": impl_mat(left[j], kl), "oracle": None,
                     "sig": f"gramL:{t.shape}", "nontrivial": t.shape[2] > 1})
-        out.append({"kind": "gramR", "req": "gram R " + req_tensor(t), "impl": impl_mat(right[j]), "oracle": None,
+        out.append({"kind": "gramR", "req": scaled("gram R " + req_tensor(t), kr), "impl": impl_mat(right[j], kr), "oracle": None,
                     "sig": f"gramR:{t.shape}", "nontrivial": t.shape[1] > 1})
     return out, ret
 
@@ -539,6 +567,7 @@ def op_oracle(op, L, dims_now, before, after, mps, canon_ret, events, exc):
             return True, "zero vector", True, None
         c = np.vdot(before, after) / np.vdot(before, before)
         dev = float(np.linalg.norm(after - c * before)) / max(1.0, float(np.linalg.norm(after)))
+        WORST["scalar"] = max(WORST["scalar"], dev)
         if dev > 1e-9:
             probs.append(f"{k}: result is not a multiple of the input vector (dev {dev:.3e})")
         if k in ("normalize", "pad") and abs(abs(c) * nb - 1.0) > 1e-9:
@@ -556,12 +585,15 @@ def op_oracle(op, L, dims_now, before, after, mps, canon_ret, events, exc):
         tol = VEC_TOL * scale
         if k == "truncate":
             tol = max(tol, 10 * np.sqrt(op[1]) * scale * L)
+        if dev <= tol:
+            WORST["vec"] = max(WORST["vec"], dev / scale)
         if dev > tol:
             probs.append(f"{op}: to_vec changed by {dev:.3e} (|psi| = {nb:.3e})")
     # isometry conditions of the requested form
     ld = [left_iso_dev(t) for t in mps.tensors]
     rd = [right_iso_dev(t) for t in mps.tensors]
     if k == "shiftR":
+        WORST["iso"] = max(WORST["iso"], min(ld[op[1]], 1.0))
         if ld[op[1]] > ISO_TOL:
             probs.append(f"site {op[1]} not left-isometric after shift right (dev {ld[op[1]]:.2e})")
     elif k == "shiftL":
@@ -570,6 +602,8 @@ def op_oracle(op, L, dims_now, before, after, mps, canon_ret, events, exc):
     elif k == "setcanon":
         c = op[1]
         bad = [i for i in range(c) if ld[i] > ISO_TOL] + [i for i in range(c + 1, L) if rd[i] > ISO_TOL]
+        if not bad:
+            WORST["iso"] = max([WORST["iso"]] + ld[:c] + rd[c + 1:])
         if bad:
             probs.append(f"set_canonical_form({c}): sites {bad} violate the mixed-canonical isometry conditions")
         if canon_ret is not None and c not in canon_ret:
@@ -584,8 +618,13 @@ def op_oracle(op, L, dims_now, before, after, mps, canon_ret, events, exc):
         if canon_ret is not None and centre not in canon_ret:
             probs.append(f"check_canonical_form returned {canon_ret} after {k} (form {form})")
     # by-design truncation of the SVD shift in a normal-scale block: razor edge, skipped
-    worst, small = significant_truncation(events)
-    edge = bool(probs) and worst > 1e-9 and small > 1e-6
+    # a cut of weight < 1e-12 in a block of normal size moves the vector by < 1e-6 x environment: by design, skipped
+    worst, block, sqrt_weight = significant_truncation(events)
+    edge = bool(probs) and 1e-6 < block < np.inf and dev <= min(1e-5 * scale, 1e3 * sqrt_weight * scale)
+    if edge:
+        COUNTS.add("skipped_by_design_truncation_below_1e-12_weight")
+        return True, "skipped (edge): " + "; ".join(probs) + f" — the SVD shift cut a singular value {worst:.2e} x the largest " \
+                     f"in a block of squared norm {block:.2e} (discarded weight < 1e-12 by design)", True, None
     return not probs, ("; ".join(probs) or f"ok dev<={VEC_TOL:g}{phase_note}"), edge, None
 
 
@@ -605,7 +644,8 @@ def run_sequence(inp):
         # to_vec value tie at the start (model chain product in to_vec order)
         v0 = mps.to_vec()
         if v0.size <= 108:
-            out.append({"kind": "vec", "req": "vec " + req_tensors(mps.tensors), "impl": " ".join(fnum(z) for z in v0), "oracle": None,
+            k = pow2(v0)
+            out.append({"kind": "vec", "req": scaled("vec " + req_tensors(mps.tensors), k), "impl": " ".join(fnum(z, k) for z in v0), "oracle": None,
                         "sig": f"vec:{dims}:{bonds}", "nontrivial": L > 1})
         flip_tied = False
         for n, op in enumerate(ops):
@@ -644,10 +684,12 @@ def run_sequence(inp):
             out += primitive_cases(events, f"{seq}.{n}", budget=inp.get("prim_budget", 6))
             if k == "flip" and not flip_tied and sum(t.size for t in tensors_before) <= 120:
                 flip_tied = True
-                out.append({"kind": "flip", "req": "flip " + req_tensors(tensors_before), "impl": impl_tensors(mps.tensors), "oracle": None,
+                k = pow2(*mps.tensors)
+                out.append({"kind": "flip", "req": scaled("flip " + req_tensors(tensors_before), k), "impl": impl_tensors(mps.tensors, k), "oracle": None,
                             "sig": f"flip:{[t.shape for t in tensors_before]}", "nontrivial": L > 1})
             if k == "pad" and pad_entry is not None and sum(t.size for t in pad_entry) <= 400:
-                out.append({"kind": "pad", "req": f"pad {op[1]} " + req_tensors(tensors_before), "impl": impl_tensors(pad_entry), "oracle": None,
+                k = pow2(*pad_entry)
+                out.append({"kind": "pad", "req": scaled(f"pad {op[1]} " + req_tensors(tensors_before), k), "impl": impl_tensors(pad_entry, k), "oracle": None,
                             "sig": f"pad:{op[1]}:{[t.shape for t in tensors_before]}",
                             "nontrivial": any(a.shape != b.shape for a, b in zip(pad_entry, tensors_before))})
             out += ccases
@@ -697,12 +739,14 @@ def run_smallscale(inp):
         return float(np.linalg.norm(a - before)) / nb
 
     dev_svd, dev_qr = rel_dev(after), rel_dev(after_qr)
-    worst, small = significant_truncation(events)
+    worst, small, _ = significant_truncation(events)
     ok = dev_svd <= 1e-9 and not exc
+    # the known finding: a two-site block whose squared norm is within 1e6 x of the absolute threshold 1e-12 was cut,
+    # and the QR variant of the same operation is exact; anything else that fails here is reported without a key
     known = (not ok) and small <= 1e-6 and dev_qr <= 1e-9 and not exc
     case = {"kind": "svd-smallscale", "req": f"trace {op[0] if op[0] != 'shiftR' else 'shiftR'} {L} {op[1]} {op[2]}",
             "impl": trace_string(events),
-            "oracle": {"ok": ok, "detail": f"{op} on a {inp['variant']}-scaled MPS (|psi| = {nb:.3e}, smallest two-site block |theta|_F^2 = {small:.3e}): "
+            "oracle": {"ok": ok, "detail": f"{op} on a {inp['variant']}-scaled MPS (|psi| = {nb:.3e}, truncated two-site block |theta|_F^2 = {small:.3e}): "
                                            f"relative change of the vector {dev_svd:.3e} with SVD, {dev_qr:.3e} with QR; "
                                            f"largest discarded singular value / largest = {worst:.3e} (absolute threshold 1e-12 in shift_orthogonality_center_right)"},
             "sig": f"smallscale:{inp['variant']}:{op}", "nontrivial": True,
@@ -779,6 +823,23 @@ def run_canon_tables(inp):
 
 
 def run(inp):
+    """an exception that comes out of the real package while the harness exercises it (e.g. `to_vec()` on a network a move
+    left inconsistent) is a failure of the property on this input, not a harness crash"""
+    import traceback
+
+    try:
+        return run_inner(inp)
+    except Exception as e:  # noqa: BLE001
+        frames = traceback.extract_tb(e.__traceback__)
+        inside = [f for f in frames if "/mqt/yaqs/" in f.filename.replace("\\", "/")]
+        if not inside:
+            raise
+        where = f"{inside[-1].filename.split('/mqt/yaqs/')[-1]}:{inside[-1].lineno} in {inside[-1].name}"
+        return {"kind": "real-code-exception", "req": None, "impl": None, "sig": f"exc:{type(e).__name__}:{where}",
+                "oracle": {"ok": False, "detail": f"{type(e).__name__}: {e} raised at {where} while running input {inp}"}}
+
+
+def run_inner(inp):
     k = inp["kind"]
     if k == "sequence":
         return run_sequence(inp)
@@ -798,7 +859,8 @@ def spec():
         {"name": "LAPACK SVD spec on every matrix seen by two_site_svd (U diag(s) Vh = theta, U^H U = 1, Vh Vh^H = 1, s sorted, s >= 0)",
          "ok": SPEC["svd_bad"] == 0, "n": SPEC["svd_n"], "worst_residual": SPEC["svd_worst"], "detail": SPEC["detail"]},
         {"name": "observations (not verdicts): sign/phase of the scalar dropped by normalize, state of the MPS after a refused pad",
-         "ok": True, "counts": dict(COUNTS)},
+         "ok": True, "counts": dict(COUNTS), "largest_deviation_accepted_by_the_oracles": dict(WORST),
+         "oracle_tolerances": {"vec_rel": VEC_TOL, "isometry": ISO_TOL, "scalar_multiple": 1e-9}},
     ]
 
 
